@@ -12,6 +12,7 @@ CONSTANTS
   MaxIter = 2
   GS = 2
   G = 2
+  Rounds = 1
   TOL = 0
   EMIT = FALSE
 INVARIANT TemplatesOnLattice
